@@ -81,8 +81,13 @@ func TestC18Builtins(t *testing.T) {
 			}
 			for k := rapid.IntRange(0, 2).Draw(rt, "extra"); k > 0; k-- {
 				d := kit.DepSpec{Builtin: rapid.IntRange(1, 3).Draw(rt, "b")}
-				if rapid.IntRange(0, 5).Draw(rt, "named") == 0 {
+				switch rapid.IntRange(0, 5).Draw(rt, "named") {
+				case 0:
 					d.Key, d.Optional = "a", true
+					r.UseIn = true
+				case 1:
+					// optional makes no difference for a built-in: it is always there
+					d.Optional = true
 					r.UseIn = true
 				}
 				r.Deps = append(r.Deps, d)
